@@ -125,6 +125,9 @@ func ruleHostileRest(c *core.Ctx) {
 	for _, mb := range broadMembers(c.Tier, gen.DefaultConfig()) {
 		runMember(c, mb, ruleSet("A-PANIC", "A-GENERR"), 256, func(w *fam.World, fm *fam.FileModel) []fam.Issue { return nil })
 	}
+	// ... and terminates: four enum values that normalise to one constant name (the suffix search must come to an end)
+	runMember(c, member{name: "four enum values that normalise to one identifier", cfg: gen.DefaultConfig(), root: place(&fam.Spec{Kind: "string", Enum: "collide4"}, "required")},
+		ruleSet("A-PANIC", "A-GENERR", "A-HANG"), 64, func(w *fam.World, fm *fam.FileModel) []fam.Issue { return nil })
 	// `{"$ref": "#"}` — a reference to the document itself is valid JSON Schema (the usual way to write a recursive root)
 	for _, pos := range []string{"property", "items"} {
 		self := &fam.Spec{RefRootOf: "#", Kind: "object"}
